@@ -655,3 +655,133 @@ impl NameBuf2 {
         &self.bytes[..self.used as usize]
     }
 }
+
+// ---- loop pacing ---------------------------------------------------------------------------------------------------
+// `loopgood_*`: every loop is paced; `loopbad_*`: one loop has no recognised reason to terminate.
+
+pub fn loopgood_for_range(v: &[u8]) -> u32 {
+    let mut s = 0u32;
+    for i in 0..v.len() {
+        s = s.wrapping_add(v[i] as u32);
+    }
+    for x in v.iter().rev().take(3) {
+        s = s.wrapping_add(*x as u32);
+    }
+    s
+}
+
+pub fn loopgood_while_counter(v: &[u8]) -> u32 {
+    let mut i = 0;
+    let mut s = 0u32;
+    while i < v.len() {
+        s = s.wrapping_add(v[i] as u32);
+        i += 2;
+    }
+    s
+}
+
+pub fn loopgood_count_down(mut n: u32) -> u32 {
+    let mut s = 0u32;
+    while n > 0 {
+        s = s.wrapping_add(n);
+        n -= 1;
+    }
+    s
+}
+
+pub fn loopgood_caller_iterator(it: impl Iterator<Item = u8>) -> u32 {
+    let mut s = 0u32;
+    for x in it {
+        s = s.wrapping_add(x as u32);
+    }
+    s
+}
+
+// the step happens only on some trips
+pub fn loopbad_conditional_step(v: &[u8]) -> u32 {
+    let mut i = 0;
+    let mut s = 0u32;
+    while i < v.len() {
+        s = s.wrapping_add(v[i] as u32);
+        if v[i] != 0 {
+            i += 1;
+        }
+    }
+    s
+}
+
+// the bound moves with the counter
+pub fn loopbad_moving_bound(v: &[u8]) -> u32 {
+    let mut i = 0usize;
+    let mut end = v.len();
+    let mut s = 0u32;
+    while i < end {
+        s = s.wrapping_add(1);
+        i += 1;
+        end += 1;
+    }
+    s
+}
+
+// an infinite source with nothing finite zipped to it
+pub fn loopbad_repeat(v: &[u8]) -> u32 {
+    let mut s = 0u32;
+    for x in core::iter::repeat(1u32) {
+        s = s.wrapping_add(x);
+        if s as usize > v.len() {
+            break;
+        }
+    }
+    s
+}
+
+// the counter runs away from the bound
+pub fn loopbad_wrong_direction(v: &[u8]) -> u32 {
+    let mut i = v.len();
+    let mut s = 0u32;
+    while i > 0 {
+        s = s.wrapping_add(1);
+        i += 1;
+    }
+    s
+}
+
+// the counter is reset inside the loop
+pub fn loopbad_reset(v: &[u8]) -> u32 {
+    let mut i = 0;
+    let mut s = 0u32;
+    while i < v.len() {
+        s = s.wrapping_add(1);
+        i += 1;
+        if v[i - 1] == 7 {
+            i = 0;
+        }
+    }
+    s
+}
+
+// a worklist that can grow
+pub fn loopbad_worklist(mut work: Vec<u32>) -> u32 {
+    let mut s = 0u32;
+    while let Some(x) = work.pop() {
+        s = s.wrapping_add(x);
+        if x % 3 == 1 {
+            work.push(x / 3);
+        }
+    }
+    s
+}
+
+// the iterator is rebuilt on every trip
+pub fn loopbad_iterator_rebuilt(v: &[u8]) -> u32 {
+    let mut s = 0u32;
+    loop {
+        let mut it = v.iter();
+        match it.next() {
+            Some(x) if *x == 0 => break,
+            Some(x) => s = s.wrapping_add(*x as u32),
+            None => break,
+        }
+    }
+    s
+}
